@@ -207,8 +207,20 @@ def run_paths(ctx, rng):
             # what an earlier build left behind must not matter: some targets exist already, longer than the new contents
             # and beginning with them, equal to them, or holding something else
             stale = {}
+            decoys = []
             for pth, (fmt0, tname0) in expect.items():
                 how = rng.choice([None, None, "longer", "same", "junk"])
+                if os.path.dirname(main) and os.path.normpath(pth).startswith(os.path.dirname(main) + os.sep) and rng.random() < 0.6:
+                    # the source is in a subdirectory: a file of the same name in the working directory (and none yet beside the
+                    # source) is another file - the directive's path is relative to the source file
+                    dec = os.path.relpath(os.path.normpath(pth), os.path.dirname(main))
+                    if dec not in [os.path.normpath(q) for q in expect] and not os.path.exists(os.path.join(d, dec)):
+                        os.makedirs(os.path.dirname(os.path.join(d, dec)) or d, exist_ok=True)
+                        with open(os.path.join(d, dec), "wb") as f:
+                            f.write(b"another file of the same name")
+                        decoys.append(dec)
+                        ctx.count("targets with a namesake in the working directory")
+                        continue
                 if how is None:
                     continue
                 if fmt0 == "raw":
@@ -231,7 +243,7 @@ def run_paths(ctx, rng):
             key = (main, extra, tuple(argv))
             ctx.case(key)
             ctx.count("path-cases")
-            inp = {"main": main, "source": src_c + extra, "argv": [main] + argv, "targets_existing_before": stale}
+            inp = {"main": main, "source": src_c + extra, "argv": [main] + argv, "targets_existing_before": stale, "namesakes_in_cwd": decoys}
             if res.exit != 0:
                 ctx.violation("a run with only valid input failed", inp, expected="exit 0", observed={"exit": res.exit, "stderr": res.stderr[-300:], "exc": res.exc})
                 continue
